@@ -12,6 +12,10 @@ Conformance     for every universe element: corrupted copy of a base image; real
                 finding (DESIGN.md section 5, C01); known findings are keyed by it.
 """
 import os, sys, json, random, shutil, time, re, multiprocessing as mp
+for _d in ("lib", "checks", "reader", "gen"):       # only needed for `python3 checks/c01.py mkknown ...`; bin/check has set the path already
+    _p = os.path.join(os.path.dirname(os.path.dirname(os.path.abspath(__file__))), _d)
+    if _p not in sys.path:
+        sys.path.insert(0, _p)
 from common import VERIF, fast_tmp, seed, die_broken, NPROC, tool_env
 import build, tlc as T
 from evidence import Evidence, Verdict
@@ -42,7 +46,8 @@ def _case(args):
             # no problem log was written: the run died before opening it (usage error / cannot open) -- logged as such
             meta["nolog"] = 1
         sigs = [corrupt.sig_of(p) for p in (p2 or [])]
-        meta.update(exit1=rc1, exit2=rc2, nfixed=len(fixed), codes1=sorted(set(p.get("code", "?") for p in fixed))[:20], sig2=sigs[:40])
+        meta.update(exit1=rc1, exit2=rc2, nfixed=len(fixed), codes1=sorted(set(p.get("code", "?") for p in fixed))[:20], sig2=sigs[:40],
+                    codes2=layout_free(sigs))
         if rc2 != 0 or sigs:
             meta["out2"] = out2[-1200:]
         line = {"e": "FsckYN", "id": k, "exit1": rc1, "nfixed": len(fixed), "exit2": rc2, "problems2": sigs[:40]}
@@ -52,8 +57,33 @@ def _case(args):
             if os.path.exists(p): os.unlink(p)
 
 
+def layout_free(sigs):
+    """the second run's problem records without what depends on the allocation layout of the base image: code + inode number,
+    physical block and group numbers dropped, runs of the same record (one per block of a range) collapsed; first 40"""
+    out = []
+    for s in sigs:
+        s = re.sub(r":[bg]\d+", "", s)
+        if not out or out[-1] != s:
+            out.append(s)
+    return out[:40]
+
+
+def recipe_class(name):
+    """role.field of every recipe of the element (value class and checksum variant dropped)"""
+    return "+".join(".".join(x.split(".")[:2]) for x in name.split("+"))
+
+
+def parse_recipes(name):
+    out = []
+    for x in name.split("+"):
+        role, field, vc, cs = x.split(".")
+        out.append({"role": role, "field": field, "vc": vc, "csum": cs})
+    return out
+
+
 def signature(m):
-    return "%s|%s" % (m["profile"], " ".join(m["sig2"]) if m["sig2"] else "exit%d" % m["exit2"])
+    """key of a known finding: profile | recipe class | ordered problem codes (with inode numbers) of the second run"""
+    return "%s|%s|%s" % (m["profile"], recipe_class(m["recipe"]), " ".join(m["codes2"]) if m["codes2"] else "exit%d" % m["exit2"])
 
 
 def run(tier):
@@ -155,10 +185,16 @@ def replay(path):
         H._init(b, basedir, work)
         B = H._base(rp["profile"])
         img = os.path.join(work, "replay.img")
-        buf = bytearray(B.raw)
-        for o, hx in rp["patches"]:
-            bts = bytes.fromhex(hx); buf[o:o + len(bts)] = bts
-        open(img, "wb").write(buf)
+        # the recipe is bound again on the base image of THIS tree (byte offsets saved in "patches" belong to the base image of the
+        # tree the replay was recorded on; they are used only when the replay names no recipe)
+        pt = B.apply(parse_recipes(rp["recipes"]), img) if rp.get("recipes") else None
+        if pt is None:
+            if rp.get("recipes"):
+                print("recipe %s does not bind on the %s base image of this tree; applying the recorded byte patches" % (rp["recipes"], rp["profile"]))
+            buf = bytearray(B.raw)
+            for o, hx in rp["patches"]:
+                bts = bytes.fromhex(hx); buf[o:o + len(bts)] = bts
+            open(img, "wb").write(buf)
         rc1, p1, out1 = corrupt.run_fsck(H._G["fsck"], "-fy", img, H._G["env"], img + ".log")
         rc2, p2, out2 = corrupt.run_fsck(H._G["fsck"], "-fn", img, H._G["env"], img + ".log")
         sigs = [corrupt.sig_of(p) for p in (p2 or [])]
@@ -174,3 +210,89 @@ def replay(path):
         return 0
     finally:
         shutil.rmtree(work, ignore_errors=True)
+
+
+# ------------------------------------------------------------------------------------------------------------------
+# maintenance: regenerate the known-finding list of C01 from a full thorough run on the unchanged tree
+#   C01_PROPOSE=/path/propose.json bin/check C01 --tier thorough          (dumps every non-convergent universe element)
+#   python3 checks/c01.py mkknown /path/propose.json "<tree description>" [/path/propose_with_fix.json fixes/C01_x.patch ...]
+# One entry per cluster (cluster = ordered problem codes of the second run, inode numbers dropped); "key"/"keys" = the
+# exact keys signature() produces for the elements of the cluster; rewrites fixes/C01_known_findings.txt, the C01 lines
+# of known_findings.txt and replays/C01/known_NNN.json.  Never called by a check run.
+# ------------------------------------------------------------------------------------------------------------------
+def _cluster_codes(m):
+    out = []
+    for x in m["codes2"]:
+        c = re.sub(r":i\d+", "", x)
+        if not out or out[-1] != c:
+            out.append(c)
+    return " ".join(out) if out else "exit%d" % m["exit2"]
+
+
+def make_known(propose, tree, fixed_runs=()):
+    from common import REPO
+    names = dict((("0x%06x" % int(v, 16)), k) for k, v in re.findall(r"#define\s+(PR_\w+)\s+(0x[0-9A-Fa-f]{6})\b", open(os.path.join(REPO, "e2fsck", "problem.h")).read()))
+    P = json.load(open(propose))
+    still = []          # [(patch name, set of (profile, recipe) still non-convergent with the patch applied)]
+    for path, patch in fixed_runs:
+        still.append((patch, set((m["profile"], m["recipe"]) for m in json.load(open(path)))))
+    cl = {}
+    for m in P:
+        cl.setdefault(_cluster_codes(m), []).append(m)
+    order = sorted(cl.items(), key=lambda kv: (-len(kv[1]), kv[0]))
+    rdir = os.path.join(VERIF, "replays", PID)
+    for f in os.listdir(rdir):
+        if re.match(r"known_\d+\.json$", f):
+            os.unlink(os.path.join(rdir, f))
+    lines = []
+    for n, (codes, ms) in enumerate(order):
+        ms.sort(key=lambda m: (m["profile"], m["recipe"]))
+        keys = sorted(set(signature(m) for m in ms))
+        m0 = min(ms, key=lambda m: (len(m["recipe"]), m["recipe"].endswith(".stale"), m["profile"], m["recipe"]))
+        profs = sorted(set(m["profile"] for m in ms))
+        recs = sorted(set(m["recipe"] for m in ms))
+        cn = [c for c in codes.split()]
+        what = ("e2fsck -fy claims success but the following e2fsck -fn is not clean; second run reports [%s]; %d universe elements (%d recipes on profiles %s), e.g. %s on %s" % (
+            ", ".join("%s %s" % (c, names.get(c, "?")) for c in cn[:6]), len(ms), len(recs), ",".join(profs), m0["recipe"], m0["profile"]))
+        d = {"property": PID, "key": signature(m0), "keys": [k for k in keys if k != signature(m0)], "what": what,
+             "replay": "replays/%s/known_%03d.json" % (PID, n), "codes": codes, "elements": len(ms)}
+        for patch, st in still:
+            left = sum(1 for m in ms if (m["profile"], m["recipe"]) in st)
+            if left < len(ms):
+                d.setdefault("repaired_by", {})[patch] = "%d of %d elements converge with the patch applied" % (len(ms) - left, len(ms))
+        with open(os.path.join(rdir, "known_%03d.json" % n), "w") as f:
+            json.dump({"property": PID, "key": d["key"], "what": "cluster " + codes,
+                       "replay": {"profile": m0["profile"], "recipes": m0["recipe"], "patches": m0["patches"], "signature": m0["sig2"], "codes2": m0["codes2"],
+                                  "exit1": m0["exit1"], "exit2": m0["exit2"], "fixed_codes_run1": m0["codes1"], "out2": m0.get("out2", ""),
+                                  "all_elements": ["%s+%s" % (m["profile"], m["recipe"]) for m in ms][:200]}}, f, indent=1)
+        lines.append(json.dumps(d))
+    hdr = ["# C01 section of /verif/known_findings.txt (DESIGN.md 3.5); checks/c01.py reads this copy as well.",
+           "# One entry per cluster of non-convergent universe elements (cluster = ordered problem codes of the second run).  key/keys = failure signatures",
+           "# \"<profile>|<recipe class = role.field of every recipe>|<problem records of the e2fsck -fn that follows the repairing run: code:inode, runs collapsed>\"",
+           "# -- no physical block or group numbers, so the keys survive a shift of the allocation layout of the base images.",
+           "# Generated by `python3 checks/c01.py mkknown` from the whole universe (thorough tier: %d non-convergent elements, %d clusters, %d keys) on %s." % (
+               len(P), len(order), len(set(signature(m) for m in P)), tree)]
+    with open(os.path.join(VERIF, "fixes", "%s_known_findings.txt" % PID), "w") as f:
+        f.write("\n".join(hdr + lines) + "\n")
+    kf = os.path.join(VERIF, "known_findings.txt")
+    old = open(kf).read().split("\n")
+    out, done = [], False
+    for l in old:
+        if l.startswith("{") and json.loads(l).get("property") == PID:
+            if not done:
+                out += lines; done = True
+            continue
+        out.append(l)
+    if not done:
+        out = [x for x in out if x] + lines + [""]
+    with open(kf, "w") as f:
+        f.write("\n".join(out))
+    print("%d elements, %d clusters, %d keys" % (len(P), len(order), len(set(signature(m) for m in P))))
+
+
+if __name__ == "__main__":
+    if len(sys.argv) >= 4 and sys.argv[1] == "mkknown":
+        rest = sys.argv[4:]
+        make_known(sys.argv[2], sys.argv[3], list(zip(rest[0::2], rest[1::2])))
+    else:
+        print(__doc__)
